@@ -156,6 +156,12 @@ Theorem C03_no_shared_mutable_default :
 Proof. vm_compute. reflexivity. Qed.
 Print Assumptions C03_no_shared_mutable_default.
 
+(* the start vector every optimiser is given (and mutates in place, optimize.py obj_fcn_dec) is made for that call *)
+Theorem C03_optimiser_start_vectors_are_fresh :
+  forallb x0_ok x0_sites = true /\ (0 < List.length x0_sites)%nat.
+Proof. vm_compute. split; [reflexivity|repeat constructor]. Qed.
+Print Assumptions C03_optimiser_start_vectors_are_fresh.
+
 (* the default optimisers of the daily/billing model are deterministic NLopt algorithms *)
 Theorem C03_default_optimisers_deterministic :
   forallb (fun p => algorithm_ok (snd p)) default_algorithms = true /\ (0 < List.length default_algorithms)%nat.
